@@ -11,8 +11,9 @@ Section Finite.
   Variable U : units num.
   Variable K : oracles num.
   Variable minpos : num.
+  Variable rj : bool.
 
-  Local Notation try_as_spdc := (try_as_spdc_steps o U K minpos).
+  Local Notation try_as_spdc := (try_as_spdc_steps o U K minpos rj).
 
   Definition geometry_defined : Prop :=
     (forall s p cs pp, o_idler_theta K s p cs pp <> None) /\ (forall cs l p, o_waist_pos K cs l p <> None).
@@ -31,14 +32,15 @@ Section Finite.
     intros Hg Hz. unfold Config.try_as_spdc_steps.
     destruct (signal_step o K c) as [signal | |] eqn:Hs; cbn [bind]; try discriminate.
     specialize (Hz signal eq_refl).
-    destruct (poling_step o K minpos c signal) as [[pp nfp] | |] eqn:Hp; cbn [bind fst snd]; try discriminate.
+    destruct (poling_step o K minpos rj c signal) as [[pp nfp] | |] eqn:Hp; cbn [bind fst snd]; try discriminate.
     assert (Hnfp : nfp = []).
     { revert Hp. unfold poling_step, poling_of_cfg. destruct (c_pp c) as [| [| pu] a].
       - intros H; inversion H; reflexivity.
       - unfold optimum_poling_period. destruct (signal_le_pump o _ _); cbn [bind]; try discriminate. rewrite Hz.
         destruct (o_nm_period K _ _ _); cbn [bind]; try discriminate.
         destruct (_ || _); cbn [bind]; try discriminate. intros H; inversion H; reflexivity.
-      - destruct (compute_sign o K _ _ _); cbn [bind]; try discriminate. intros H; inversion H; reflexivity. }
+      - destruct (rj && neqb o pu (n0 o)); try discriminate.
+        destruct (compute_sign o K _ _ _); cbn [bind]; try discriminate. intros H; inversion H; reflexivity. }
     destruct (theta_step o K c signal pp) as [cs | |]; cbn [bind]; try discriminate.
     destruct (idler_step o K c signal cs pp) as [[idler nfi] | |] eqn:Hi; cbn [bind fst snd]; try discriminate.
     assert (Hnfi : nfi = []).
@@ -56,7 +58,7 @@ Section Finite.
   Proof.
     unfold Config.try_as_spdc_steps.
     destruct (signal_step o K c) as [signal | |]; cbn [bind]; try discriminate.
-    destruct (poling_step o K minpos c signal) as [[pp nfp] | |] eqn:Hp; cbn [bind fst snd]; try discriminate.
+    destruct (poling_step o K minpos rj c signal) as [[pp nfp] | |] eqn:Hp; cbn [bind fst snd]; try discriminate.
     destruct (theta_step o K c signal pp) as [cs | |]; cbn [bind]; try discriminate.
     destruct (idler_step o K c signal cs pp) as [[idler nfi] | |]; cbn [bind fst snd]; try discriminate.
     unfold finish_spdc. intros H. inversion H. subst. cbn [s_pp].
@@ -64,7 +66,8 @@ Section Finite.
     - intros Hp; inversion Hp. split; reflexivity.
     - destruct (optimum_poling_period o K minpos _ _ _) as [[per | []] | |]; cbn [bind]; try discriminate;
         intros Hp; inversion Hp; unfold poling_new; try destruct (nltb o _ _); split; discriminate.
-    - destruct (compute_sign o K _ _ _); cbn [bind]; try discriminate.
+    - destruct (rj && neqb o pu (n0 o)); try discriminate.
+      destruct (compute_sign o K _ _ _); cbn [bind]; try discriminate.
       intros Hp; inversion Hp; unfold poling_new; destruct (nltb o _ _); split; discriminate.
   Qed.
 
@@ -76,7 +79,7 @@ Section Finite.
   Proof.
     unfold Config.try_as_spdc_steps.
     destruct (signal_step o K c) as [signal | |] eqn:Hs; cbn [bind]; try discriminate.
-    destruct (poling_step o K minpos c signal) as [[pp nfp] | |] eqn:Hp; cbn [bind fst snd]; try discriminate.
+    destruct (poling_step o K minpos rj c signal) as [[pp nfp] | |] eqn:Hp; cbn [bind fst snd]; try discriminate.
     destruct (theta_step o K c signal pp) as [cs | |]; cbn [bind]; try discriminate.
     destruct (idler_step o K c signal cs pp) as [[idler nfi] | |] eqn:Hi; cbn [bind fst snd]; try discriminate.
     unfold finish_spdc. intros H Hin. inversion H. subst. clear H.
@@ -97,7 +100,8 @@ Section Finite.
       + intros _. exists a, signal. repeat split; auto.
       + destruct (o_nm_period K _ _ _); cbn [bind]; try discriminate.
         destruct (_ || _); cbn [bind]; try discriminate. intros Hp; inversion Hp; subst. destruct Hin.
-    - destruct (compute_sign o K _ _ _); cbn [bind]; try discriminate. intros Hp; inversion Hp; subst. destruct Hin.
+    - destruct (rj && neqb o pu (n0 o)); try discriminate.
+      destruct (compute_sign o K _ _ _); cbn [bind]; try discriminate. intros Hp; inversion Hp; subst. destruct Hin.
   Qed.
 End Finite.
 
